@@ -552,10 +552,33 @@ func codecCase(rep *Report, s *glue.Subject, d MD, idx int) {
 			if hi == 3 && !(route == 0 && snan) { // Clone goes through protoreflect.Value, which quiets float32 sNaNs
 				H = proto.Clone(H)
 			}
+			if hi%3 != 2 && (hi+idx)%2 == 1 {
+				// a nil pointer where an empty message stands as list element or map value is the same value (proto.Equal)
+				if nilOutEmptyMessages(reflect.ValueOf(H), 0) > 0 {
+					rep.Count("C05", "histories-with-nil-for-empty-message-elements", 1)
+				}
+			}
 			for k := 0; k < reps; k++ {
 				var b []byte
 				var e error
-				pan, pmsg = safely(func() { b, e = detOpts.Marshal(H) })
+				pan, pmsg = safely(func() {
+					switch (k + hi) % 4 {
+					case 0, 1:
+						b, e = detOpts.Marshal(H)
+					case 2:
+						// the fast path called directly with only the Deterministic flag (no cached sizes)
+						if meth := H.ProtoReflect().ProtoMethods(); meth != nil && meth.Marshal != nil {
+							var out protoiface.MarshalOutput
+							out, e = meth.Marshal(protoiface.MarshalInput{Message: H.ProtoReflect(), Flags: protoiface.MarshalDeterministic})
+							b = out.Buf
+							rep.Count("C05", "det-marshals-direct-fast-path", 1)
+						} else {
+							b, e = detOpts.Marshal(H)
+						}
+					case 3:
+						b, e = detOpts.MarshalAppend(make([]byte, 0, 8), H)
+					}
+				})
 				if pan || e != nil {
 					rep.Violate("C05", "codec/det-marshal-fails", tn, fmt.Sprintf("err=%v %s", e, pmsg), rc)
 					break
@@ -589,6 +612,114 @@ func codecCase(rep *Report, s *glue.Subject, d MD, idx int) {
 			if len(plainOuts) > 1 {
 				rep.Count("C05", "values-where-plain-marshal-order-varied", 1)
 			}
+			// sensitivity of the workload itself (independent of the subject): Go's map iteration order varied
+			if goMapOrderVaries(reflect.ValueOf(S), 0) {
+				rep.Count("C05", "values-where-go-map-iteration-varied", 1)
+			}
 		}
 	}
+}
+
+// nilOutEmptyMessages replaces list elements and map values that are empty messages (no populated field, no
+// unknown bytes) by nil pointers and returns how many it replaced.
+func nilOutEmptyMessages(rv reflect.Value, depth int) int {
+	if depth > 100 {
+		return 0
+	}
+	isEmpty := func(e reflect.Value) bool {
+		m, ok := e.Interface().(proto.Message)
+		if !ok || e.IsNil() {
+			return false
+		}
+		ir := StructToIR(m)
+		return ir != nil && len(ir.F) == 0 && len(ir.Unk) == 0
+	}
+	n := 0
+	switch rv.Kind() {
+	case reflect.Ptr, reflect.Interface:
+		if !rv.IsNil() {
+			n += nilOutEmptyMessages(rv.Elem(), depth+1)
+		}
+	case reflect.Struct:
+		for i := 0; i < rv.NumField(); i++ {
+			if rv.Type().Field(i).PkgPath != "" {
+				continue
+			}
+			n += nilOutEmptyMessages(rv.Field(i), depth+1)
+		}
+	case reflect.Slice:
+		if rv.Type().Elem().Kind() == reflect.Ptr && rv.Type().Elem().Elem().Kind() == reflect.Struct {
+			for i := 0; i < rv.Len(); i++ {
+				if isEmpty(rv.Index(i)) {
+					rv.Index(i).Set(reflect.Zero(rv.Type().Elem()))
+					n++
+				} else {
+					n += nilOutEmptyMessages(rv.Index(i), depth+1)
+				}
+			}
+		}
+	case reflect.Map:
+		if rv.Type().Elem().Kind() == reflect.Ptr && rv.Type().Elem().Elem().Kind() == reflect.Struct {
+			for _, k := range rv.MapKeys() {
+				if isEmpty(rv.MapIndex(k)) {
+					rv.SetMapIndex(k, reflect.Zero(rv.Type().Elem()))
+					n++
+				} else {
+					n += nilOutEmptyMessages(rv.MapIndex(k), depth+1)
+				}
+			}
+		}
+	}
+	return n
+}
+
+// goMapOrderVaries: some Go map with >= 2 entries inside the struct is iterated in two different orders by
+// repeated range loops (evidence that the runtime randomisation the property quantifies over is active).
+func goMapOrderVaries(rv reflect.Value, depth int) bool {
+	if depth > 20 {
+		return false
+	}
+	switch rv.Kind() {
+	case reflect.Ptr, reflect.Interface:
+		return !rv.IsNil() && goMapOrderVaries(rv.Elem(), depth+1)
+	case reflect.Struct:
+		for i := 0; i < rv.NumField(); i++ {
+			if rv.Type().Field(i).PkgPath == "" && goMapOrderVaries(rv.Field(i), depth+1) {
+				return true
+			}
+		}
+	case reflect.Slice:
+		if rv.Type().Elem().Kind() == reflect.Ptr {
+			for i := 0; i < rv.Len(); i++ {
+				if goMapOrderVaries(rv.Index(i), depth+1) {
+					return true
+				}
+			}
+		}
+	case reflect.Map:
+		if rv.Len() >= 2 {
+			first := fmt.Sprint(rv.MapRange().Next(), firstKey(rv))
+			for t := 0; t < 6; t++ {
+				if fmt.Sprint(true, firstKey(rv)) != first {
+					return true
+				}
+			}
+		}
+		if rv.Type().Elem().Kind() == reflect.Ptr {
+			for _, k := range rv.MapKeys() {
+				if goMapOrderVaries(rv.MapIndex(k), depth+1) {
+					return true
+				}
+			}
+		}
+	}
+	return false
+}
+
+func firstKey(rv reflect.Value) string {
+	it := rv.MapRange()
+	if it.Next() {
+		return fmt.Sprint(it.Key().Interface())
+	}
+	return ""
 }
